@@ -106,11 +106,13 @@ class Env:
         self.values: Dict[str, "Poly"] = {}   # flow-sensitive current values (see forward())
         self.seq: Set[str] = set()            # names known to hold a string / list (their `+` is concatenation)
         self._active: List[str] = []
+        self.depth = 0                        # nesting depth of bound variables (comprehensions / lambdas), for alpha-renaming
 
     def child(self, **kw) -> "Env":
         e = Env(self.defs, self.rename, self.loops, self.keep)
         e.values = dict(self.values)
         e.seq = set(self.seq)
+        e.depth = self.depth
         for k, v in kw.items():
             getattr(e, k).update(v)
         return e
@@ -359,6 +361,18 @@ def _sym(e: ast.AST, env: Env) -> Poly:
             fname = e.func.id
         if fname in TRANSPARENT_CALLS and len(e.args) == 2:
             return _sym(e.args[1], env)
+        if fname in ("map", "filter") and fname not in env.values and not e.keywords and len(e.args) == 2 and isinstance(e.args[0], ast.Lambda) \
+                and len(e.args[0].args.args) == 1 and not e.args[0].args.defaults:
+            lam = e.args[0]
+            tgt = ast.Name(id=lam.args.args[0].arg, ctx=ast.Store())
+            if fname == "map":
+                return _atom(_comp(lam.body, [(tgt, e.args[1], [])], env))
+            return _atom(_comp(ast.Name(id=lam.args.args[0].arg, ctx=ast.Load()), [(tgt, e.args[1], [lam.body])], env))
+        if fname in ("list",) and fname not in env.values and not e.keywords and len(e.args) == 1:
+            inner_p = _sym(e.args[0], env)
+            txt = str(inner_p)
+            if txt.startswith("[") and txt.endswith("]") and len(inner_p.t) == 1:
+                return inner_p          # list() of something that already is a list (comprehension / map / filter / literal)
         if fname in ("max", "min") and fname not in env.values and not e.keywords:
             # max(a, b) == max([a, b]) == max([b, a]); max([c] + xs) keeps the list part as is
             items = None
@@ -384,27 +398,13 @@ def _sym(e: ast.AST, env: Env) -> Poly:
     if isinstance(e, ast.Starred):
         return _atom("*" + str(_sym(e.value, env)))
     if isinstance(e, (ast.ListComp, ast.GeneratorExp, ast.SetComp)):
-        # bound variables shadow definitions
-        bound = set()
-        for g in e.generators:
-            for n in ast.walk(g.target):
-                if isinstance(n, ast.Name):
-                    bound.add(n.id)
-        inner = env.child()
-        for b in bound:
-            inner.defs.pop(b, None)
-            inner.keep.add(b)
-        gens = []
-        for g in e.generators:
-            gens.append("for %s in %s%s" % (ast.unparse(g.target), _sym(g.iter, inner),
-                                              "".join(" if %s" % _sym(c, inner) for c in g.ifs)))
-        return _atom("[%s %s]" % (_sym(e.elt, inner), " ".join(gens)))
+        return _atom(_comp(e.elt, [(g.target, g.iter, g.ifs) for g in e.generators], env))
     if isinstance(e, ast.Lambda):
         inner = env.child()
+        names = []
         for a in e.args.args:
-            inner.defs.pop(a.arg, None)
-            inner.keep.add(a.arg)
-        return _atom("lambda %s: %s" % (",".join(a.arg for a in e.args.args), _sym(e.body, inner)))
+            names.append(_bind_bound(inner, a.arg))
+        return _atom("lambda %s: %s" % (",".join(names), _sym(e.body, inner)))
     if isinstance(e, ast.JoinedStr):
         return _atom(ast.unparse(e))
     if isinstance(e, ast.Dict):
@@ -413,6 +413,39 @@ def _sym(e: ast.AST, env: Env) -> Poly:
     if isinstance(e, ast.NamedExpr):
         return _sym(e.value, env)
     return _atom(ast.unparse(e))
+
+
+def _bind_bound(env: Env, name: str) -> str:
+    """bind a comprehension / lambda variable in env under a canonical (alpha-renamed) name"""
+    canon = "_b%d" % env.depth
+    env.depth += 1
+    env.defs.pop(name, None)
+    env.values.pop(name, None)
+    env.loops.pop(name, None)
+    env.keep.add(name)
+    env.rename[name] = canon
+    return canon
+
+
+def _bind_target(env: Env, t: ast.AST) -> str:
+    if isinstance(t, ast.Name):
+        return _bind_bound(env, t.id)
+    if isinstance(t, (ast.Tuple, ast.List)):
+        return "(" + ", ".join(_bind_target(env, x) for x in t.elts) + ")"
+    if isinstance(t, ast.Starred):
+        return "*" + _bind_target(env, t.value)
+    return ast.unparse(t)
+
+
+def _comp(elt: ast.AST, gens, env: Env) -> str:
+    """canonical text of a comprehension: [ELT for T in ITER if C ...] with alpha-renamed targets"""
+    inner = env.child()
+    parts = []
+    for target, it, ifs in gens:
+        it_s = _sym(it, inner)              # the iterable is evaluated before its target is bound
+        tname = _bind_target(inner, target)
+        parts.append("for %s in %s%s" % (tname, it_s, "".join(" if %s" % _sym(c, inner) for c in ifs)))
+    return "[%s %s]" % (_sym(elt, inner), " ".join(parts))
 
 
 _SEQ_FUNCS = {"list", "tuple", "reversed", "sorted", "str", "repr", "map", "filter", "zip", "chain", "range", "set", "dict"}
